@@ -33,6 +33,7 @@ type Stats struct {
 	Samples     []string       `json:"samples"`
 	Dist        map[string]int `json:"distribution"`
 	Mismatches  []Mismatch     `json:"mismatches"`
+	Known       map[string]int `json:"known_findings"` // open known findings recognised (id -> cases)
 	ModelLog    []string       `json:"-"`
 	distinct    map[string]bool
 }
@@ -181,6 +182,18 @@ func (rn *Runner) Flush() {
 		rn.Count("family:" + q.Family)
 		if len(rn.CoqCases) < 400 && rn.St.Evaluations%7 == 0 {
 			rn.CoqCases = append(rn.CoqCases, sxEvents(q.Doc.Events)+"\t"+cmds[i]+"\t"+model)
+		}
+		if !agree(impl, model) && strings.Contains(q.Text, "round") {
+			// the one defect that stays open in the evaluator (round() sends negative ties away from
+			// zero; an existing test pins it): recognised with the model's literal transcription of
+			// it, and with nothing else (DESIGN 8)
+			if asis := rn.M.Ask(strings.Replace(cmds[i], "(q ", "(qa ", 1)); agree(impl, asis) {
+				if rn.St.Known == nil {
+					rn.St.Known = map[string]int{}
+				}
+				rn.St.Known["C06-round-negative-ties"]++
+				continue
+			}
 		}
 		if !agree(impl, model) && !rn.TooMany() {
 			q2, impl2, model2 := rn.shrinkQuery(q, impl, model)
